@@ -1,6 +1,6 @@
 import IpcModel.RecvSetP
 import IpcModel.Lemmas.RecvSetOrder
-import IpcModel.Gen
+import IpcModel.GenSet
 /-!
 # C06 — a receiver set reports every event of every member exactly once
 
@@ -65,6 +65,13 @@ theorem C06_inv2_step (st st' : St) (a : Act) (hI : Inv2 st) (h : step st a = so
 
 /-- the events buffer of the real code (generated constant) is positive, so every `poll` hands out at least one token -/
 theorem C06_cap_pos : 0 < Gen.eventsCap := by decide
+
+/-- **C06_shape** — what the model's actions assume about `OsIpcReceiverSet`, regenerated from the source: ids come from a counter
+(never re-used, so members are told apart for ever); a member is registered for readability before it is recorded; the wait
+blocks without time-out and retries on `EINTR`; every reported event is served, and serving a member means receiving until
+`EWOULDBLOCK` or closure, with no cap (`drain`), closure deregistering and closing the member. -/
+theorem C06_shape : Gen.shape_idsFromCounter = true ∧ Gen.shape_registerReadable = true ∧ Gen.shape_waitRetriesOnEintr = true ∧
+    Gen.shape_drainUntilWouldBlock = true ∧ Gen.shape_everyEventServed = true := by decide
 
 /-! non-vacuity: two channels with traffic queued before `add`, cap 1 (more ready members than the events buffer), a sender
 drop, interleaved polls and drains: member 0 (id 10) is reported 5, 6, closed; member 1 (id 20) is reported 7 -/
